@@ -464,8 +464,10 @@ VariablesStack::findEntry(
 
     // There is guaranteed to be a context marker at
     // the bottom of the stack, so i should stop at
-    // 1.
-    for(size_type i = nElems - 1; i > 0; --i)
+    // 1.  While the top-level parameters are being
+    // resolved there is no stack frame yet, so there
+    // is nothing to search.
+    for(size_type i = nElems > 0 ? nElems - 1 : 0; i > 0; --i)
     {
         StackEntry&                 theEntry = m_stack[i];
 
@@ -509,7 +511,13 @@ VariablesStack::findEntry(
         }
     }
 
-    if(theEntryIndex == m_stack.size() && fIsParam == false && true == fSearchGlobalSpace && m_globalStackFrameIndex > 1)
+    // m_globalStackFrameIndex is ~0u until the first top-level variable has been
+    // pushed: there is no global space to search before that.
+    if(theEntryIndex == m_stack.size() &&
+       fIsParam == false &&
+       true == fSearchGlobalSpace &&
+       m_globalStackFrameIndex > 1 &&
+       m_globalStackFrameIndex <= m_stack.size())
     {
         // Look in the global space
         for(size_type i = m_globalStackFrameIndex - 1; i > 0; i--)
